@@ -41,6 +41,8 @@ var serverAlphabet = []CIn{
 	{Kind: "data", Sub: "not"},
 	// an authentication member that is an empty object: the peer presents the scheme but no secret (token 9999)
 	ses("SID", "authenticating", "", "", "plain", ip(9999)), // 25
+	// a data envelope that the decoder rejects (a message without a type): the transport reports an error
+	{Kind: "bad", Sub: "msg-no-type"},
 }
 
 var serverConfs = []*SConf{
